@@ -47,13 +47,14 @@ theorem StoreExt.ofPrefix {S S' : Array Cell} (hs : S.size ≤ S'.size)
 theorem Ext2.refl (L : Laws2 D) (h : H) (S : Array Cell) : Ext2 D h S h S :=
   have _ := L
   ⟨StoreExt.refl _, fun _ _ x => x, fun _ _ x => x, fun _ x => ⟨x, fun _ => rfl, rfl, rfl⟩, fun _ _ _ x => x,
-   fun _ _ _ _ x => x, fun _ _ v x y => ⟨v, x, y⟩⟩
+   fun _ x => x, fun _ _ _ _ x => x, fun _ _ v x y => ⟨v, x, y⟩⟩
 
 theorem Ext2.trans {h1 h2 h3 : H} {S1 S2 S3 : Array Cell} (a : Ext2 D h1 S1 h2 S2) (b : Ext2 D h2 S2 h3 S3) :
     Ext2 D h1 S1 h3 S3 := by
   refine ⟨a.store.trans b.store, fun v w x => b.vr v w (a.vr v w x), fun v d x => b.datum v d (a.datum v d x),
     fun l hl => ?_,
-    fun v l e x => b.clos v l e (a.clos v l e x), fun e k p q x => b.envPtr e k p q (a.envPtr e k p q x),
+    fun v l e x => b.clos v l e (a.clos v l e x), fun e x => b.envOK e (a.envOK e x),
+    fun e k p q x => b.envPtr e k p q (a.envPtr e k p q x),
     fun e k v x y => ?_⟩
   · obtain ⟨a1, a2, a3, a4⟩ := a.code l hl
     obtain ⟨b1, b2, b3, b4⟩ := b.code l a1
@@ -89,10 +90,10 @@ theorem ClosOK.mono {W W' : World} {h h' : H} {S S' : Array Cell} {lam cenv : Na
     {body : List Datum} {ρc : Env} (c : ClosOK D W h lam cenv ps body ρc) (x : Ext2 D h S h' S')
     (hw : W.le W') : ClosOK D W' h' lam cenv ps body ρc := by
   obtain ⟨f, cst, cst1, co, formals, bodyD, p, bcode, caps, a1, a2, a3, a4, a5, a6, a7, a8, a9, a10, a11, a12, a13,
-    a14, a15, a16, a17⟩ := c
+    a14, a15, a16, a17, a18⟩ := c
   obtain ⟨b1, _, _, b4⟩ := x.code lam a11
   refine ⟨f, cst, cst1, co, formals, bodyD, p, bcode, caps, a1, a2, a3, a4, a5, a6, a7, a8, a9, a10, b1, a12,
-    b4.trans a13, a14, a15, ?_, ?_⟩
+    b4.trans a13, a14, a15, ?_, ?_, x.envOK _ a18⟩
   · intro j hj
     obtain ⟨g, hg⟩ := a16 j hj
     exact x.envSome hg
